@@ -24,7 +24,7 @@ props = ['C%02d' % k for k in range(1, 21)]
 def make_patch(i, c):
     f, ln, text = c[0], c[1], c[2]
     lines = open(os.path.join(src, f)).read().split('\n')
-    new = lines[:ln - 1] + lines[ln:]
+    new = lines[:ln - 1] + ([c[3]] if len(c) > 3 else []) + lines[ln:]
     a = os.path.join(out, 'p', '%03d.a' % i)
     b = os.path.join(out, 'p', '%03d.b' % i)
     open(a, 'w').write('\n'.join(lines))
@@ -46,7 +46,7 @@ results = json.load(open(resfile)) if os.path.exists(resfile) else {}
 
 def one(ic):
     i, c = ic
-    key = '%s:%d' % (c[0], c[1])
+    key = '%s:%d%s' % (c[0], c[1], ('#%d' % i) if len(c) > 3 else '')
     if key in results:
         return key, results[key]
     p = make_patch(i, c)
@@ -60,7 +60,7 @@ def one(ic):
     det = {pr: res[pr]['keys'][:3] for pr in res if res[pr]['rc'] == 1}
     nov = [pr for pr in res if res[pr]['rc'] == 2]
     st = 'DETECTED' if det else ('NO-VERDICT' if nov else 'MISSED')
-    return key, {'text': c[2], 'status': st, 'by': det}
+    return key, {'text': c[2] if len(c) <= 3 else c[2] + '  =>  ' + c[3].strip(), 'status': st, 'by': det}
 
 
 with concurrent.futures.ThreadPoolExecutor(max_workers=jobs) as ex:
